@@ -110,7 +110,11 @@ class Analysis(af.Analysis):
         return 0.0
 
     def save_attributes(self, paths):
+        import numpy as np
         paths.save_json("attr", {"label": self.label})
+        paths.save_json("deep", {"label": self.label, "x": [1, 2.5]}, prefix="sub")   # files/sub/deep.json
+        paths.save_object("obj", {"label": self.label, "t": (1, 2)})                  # files/obj.pickle
+        paths.save_array("arr", np.array([[1.0, 2.0], [3.0, 4.5]]))                   # files/arr.csv
 
 
 REAL = {
@@ -259,7 +263,9 @@ def canon_fit(fit):
         "jsons": sorted(j.name for j in fit.jsons),
         "json_digest": {j.name: digest(j.dict) for j in fit.jsons},
         "pickles": sorted(p.name for p in fit.pickles),
+        "pickle_digest": {p.name: guard(lambda p=p: digest(repr(p.value))) for p in fit.pickles},
         "arrays": sorted(a.name for a in fit.arrays),
+        "array_digest": {a.name: guard(lambda a=a: digest([[float(x) for x in row] for row in a.array.tolist()] if a.array.ndim == 2 else a.array.tolist())) for a in fit.arrays},
         "best_fit": guard(lambda: fit.best_fit.id) if fit.is_grid_search and fit.children else None,
     }
 
@@ -339,6 +345,24 @@ def inspect_dir(root):
                 e["search_keys"] = sorted(sj.get("arguments", {}).keys())
                 e["search_name"] = sj.get("arguments", {}).get("name")
                 e["search_tag"] = sj.get("arguments", {}).get("unique_tag")
+            e["pickle_digests"] = {}
+            e["array_digests"] = {}
+            for rel_ in e["files"]:
+                nm_ = os.path.splitext(rel_)[0].replace(os.sep, ".")
+                if rel_.endswith(".pickle"):
+                    try:
+                        import dill as _dill
+                        with open(os.path.join(fp, rel_), "rb") as fh:
+                            e["pickle_digests"][nm_] = digest(repr(_dill.load(fh)))
+                    except Exception:  # noqa
+                        e["pickle_digests"][nm_] = "unreadable"
+                elif rel_.endswith(".csv") and nm_ not in ("samples", "latent.samples"):
+                    try:
+                        import numpy as _np
+                        arr_ = _np.loadtxt(os.path.join(fp, rel_), delimiter=",")
+                        e["array_digests"][nm_] = digest([[float(x) for x in row] for row in arr_.tolist()] if arr_.ndim == 2 else arr_.tolist())
+                    except Exception:  # noqa
+                        pass
             e["json_digests"] = {}
             for rel_ in e["files"]:
                 if rel_.endswith(".json"):
@@ -356,9 +380,12 @@ def inspect_dir(root):
                 if "attr.json" in names:
                     label = json.load(open(os.path.join(af_, "attr.json"))).get("label")
                 dig = {}
-                for n_ in names:
-                    if n_.endswith(".json"):
-                        dig[n_[:-5]] = digest(json.load(open(os.path.join(af_, n_))))
+                if os.path.isdir(af_):
+                    for dd_, _, ff_ in os.walk(af_):
+                        for n_ in ff_:
+                            if n_.endswith(".json"):
+                                rel2 = os.path.relpath(os.path.join(dd_, n_), af_)
+                                dig[rel2[:-5].replace(os.sep, ".")] = digest(json.load(open(os.path.join(dd_, n_))))
                 e["analyses"].append({"name": a, "files": names, "label": label, "json_digests": dig})
         out.append(e)
     return out
